@@ -102,5 +102,9 @@ REGISTRY = {
     "C08": {"jobs": SEND_CORE + SERVER_API + CLIENT_API + INCOMING + RECEIVE[:4], "native": "native_session.py"},
     "C09": {"jobs": [j(f"{S}:LDAPClient._send"), inh("_send", "LDAPClient")] + CLIENT_API + [INCOMING[0]], "native": "native_session.py"},
     "C10": {"jobs": SEND_CORE + SERVER_API + CLIENT_API, "native": "native_session.py"},
+    "C11": {"jobs": [], "native": "native_joint.py", "level": "other", "joint": True,
+            "explanation": "Contract-level joint invariant over (client, server, two FIFO queues) discharged per action with z3, the session part of every action being derived from the proved L3 method contracts "
+                           "(obligation: contract => action); alive fragment (no terminations). Byte-level delivery reduces to message-level delivery by C02 / C01 (used as lemmas). "
+                           "Bounded: all joint histories up to a stated depth with partial deliveries, including terminations."},
     "C12": {"jobs": DRAIN + SEND_CORE + SERVER_API + CLIENT_API, "native": "native_session.py"},
 }
